@@ -1,6 +1,6 @@
 """C06 - consensus-to-execution hand-over is exactly-once, ordered and gap-free."""
 from lib import verif
-from checks import handover_common as hc
+from checks import handover_common as hc, locking_common as lc
 
 RULE = ("whole-application histories through the real ABCI surface (real PrepareProposal / ProcessProposal / FinalizeBlock / Commit, real "
         "mempool): queue-filling events of every kind (voted hashes, deposits, paid and refunded withdrawals, claimed rewards, matured "
@@ -20,5 +20,10 @@ def run(tier, seed, work):
     # "never dropped" spans restarts from an exported state: the hand-over queues and the block-hash cursor must survive export / import
     rj = [("c06reimp_%d" % j, ["reimport", "-n", 2 if quick else 12, "-depth", 30, "-seed", seed * 1000 + 340 + j, "-mode", "bridge"]) for j in range(4 if quick else 8)]
     groups = [("Trace_Handover.tla", "Trace_Handover_C06.cfg", js), ("Trace_Bridge.tla", "Trace_Bridge_C06.cfg", rj)]
+    # the locking module's side: every unlock request that succeeds is scheduled (never overwriting what earlier blocks scheduled), every
+    # claim is queued, what is due is what the specification says is due - the slice `queues` of the locking histories
+    for pr in (1, 2):
+        groups.append(("Trace_Locking.tla", "Trace_Locking_C06_pr%d.cfg" % pr,
+                       lc.jobs("c06lk", seed + 7, 3 if quick else 20, 30, 3 if quick else 8, pr) + lc.jobs("c06lkburst", seed + 8, 3 if quick else 20, 30, 2 if quick else 4, pr, "burst")))
     return verif.run_stateful_check("C06", tier, seed, work, mc_list=mc, groups=groups, key_fn=lambda ev: hc.key(ev) if ev.get('ev') in ('process', 'prepare', 'finalize', 'exec') else 'c06/%s' % ev.get('ev'),
                                     level="model_checking", assumptions=hc.ASSUME, rule=RULE)
